@@ -34,3 +34,43 @@ func verifC10ZK(ec elliptic.Curve) {
 
 func VerifHarness_C10_schnorr_zk_secp() { verifC10ZK(tss.S256()) }
 func VerifHarness_C10_schnorr_zk_ed()   { verifC10ZK(tss.Edwards()) }
+
+// the two-witness proof (V = s*R + l*G): honest proofs verify, for every witness pair,
+// every base point R = k*G and every coin
+func verifC10ZKV(ec elliptic.Curve) {
+	v.Summarise("challenge-independent")
+	q := ec.Params().N
+	s, l, k := v.NondetNat("s"), v.NondetNat("l"), v.NondetNat("k")
+	v.Assume("witness-in-Zq*", v.All(v.InRange(s, big.NewInt(1), q), v.InRange(l, big.NewInt(1), q), v.InRange(k, big.NewInt(1), q)))
+	R := crypto.ScalarBaseMult(ec, k)
+	V, err := R.ScalarMult(s).Add(crypto.ScalarBaseMult(ec, l))
+	if err != nil {
+		return // V is the identity: not a statement on secp256k1
+	}
+	sk := new(big.Int).Mul(s, k)
+	v.Assume("statement-not-identity", !v.CongMod(sk.Add(sk, l), big.NewInt(0), q))
+	// coins excluded: a = 0, b = 0, commitment = identity, responses = 0 mod q
+	var a0 *big.Int
+	rd := v.ReaderWith("r", func(i int, a *big.Int) bool {
+		if i == 0 {
+			a0 = a
+			return a.Sign() != 0
+		}
+		ak := new(big.Int).Mul(a0, k)
+		return a.Sign() != 0 && !v.CongMod(ak.Add(ak, a), big.NewInt(0), q)
+	})
+	pf, err := NewZKVProof(verifSession(), V, R, s, l, rd)
+	v.Assert("prover-succeeds", err == nil)
+	if err != nil {
+		return
+	}
+	v.Assume("responses-nonzero", pf.T.Sign() != 0 && pf.U.Sign() != 0)
+	// coin excluded: t*R + u*G is the identity (probability 1/q over the challenge)
+	tk := new(big.Int).Mul(pf.T, k)
+	v.Assume("verification-point-not-identity", !v.CongMod(tk.Add(tk, pf.U), big.NewInt(0), q))
+	v.Assert("honest-proof-verifies", pf.Verify(verifSession(), V, R))
+	v.Reach("end")
+}
+
+func VerifHarness_C10_schnorr_zkv_secp() { verifC10ZKV(tss.S256()) }
+func VerifHarness_C10_schnorr_zkv_ed()   { verifC10ZKV(tss.Edwards()) }
